@@ -480,6 +480,13 @@ def fail (env : Env) (cfg : Cfg) (acceptsAnswer : Bytes) (w : Wire) (pos : Nat) 
   let (st, ct, bodies) := overWire w r.status r.contentType r.body
   { status := st, contentType := ct, bodies := bodies, aborted := true, entered := List.range (pos + 1) }
 
+/-- `fail` when the response header map already carries a Content-Type (`preCT`: set earlier by a
+    middleware or by the failing handler itself through `c.Header`): `c.Header("Content-Type", …)` is
+    `http.Header.Set`, it replaces whatever was there — the earlier value plays no part -/
+def failH (_preCT : Option Bytes) (env : Env) (cfg : Cfg) (acceptsAnswer : Bytes) (w : Wire) (pos : Nat)
+    (call : Call) : Resp :=
+  fail env cfg acceptsAnswer w pos call
+
 /-- as shipped (K06): `c.JSON` overwrites the header with `application/json; charset=utf-8` -/
 def failAsIs (env : Env) (cfg : Cfg) (acceptsAnswer : Bytes) (w : Wire) (pos : Nat) (call : Call) : Resp :=
   let f := selectFormatter cfg acceptsAnswer
